@@ -33,4 +33,32 @@ PROPERTIES = {
         "level": "proof",
         "explanation": "heap equality of step() vs first+second vs single_step sequences from any boundary state; sequencing errors leave the heap unchanged; done is a no-op",
     },
+    "C17": {
+        "modules": ["contracts.c17_repr"],
+        "level": "proof",
+        "explanation": "formatter verified digit by digit for n in {12,16,32} and every integer input; register/TOY getters pass current values; memory tables: see bounded part",
+        "trusted_base": ["digit semantics of format(int,'0Nb'|'0NX') and str(int) (A-BUILTIN)"],
+    },
+}
+
+PENDING = "check not built yet in this session (planned, see DESIGN.md section 4)"
+NOT_APPLICABLE = {p: PENDING for p in ["C01", "C02", "C03", "C04", "C05", "C07", "C08", "C09", "C10", "C11", "C12", "C13", "C14", "C15", "C16"]}
+
+_T = "contract-based deductive verification: VCs from symbolic execution of the real AST, z3"
+MANIFEST_TEXT = {
+    "C06": {"text": "Proof for all memory images, accumulator values, program counters and max_pc: ToySimulation.step from any instruction-boundary state equals one step of an independently written reference machine on memory, accu, pc, halting, counters; the boundary invariant is inductive, so it holds for every program and history.",
+            "note": "Assumes the fixedint model, the executor's Python semantics (A-ENGINE) and C18's memory contract (proved separately). Termination of run() not proved. Non-default unified_memory_size outside the property.",
+            "technique": _T},
+    "C17": {"text": "Proof for every integer input and n in {12,16,32} that the four strings are, digit by digit and group by group, the two's-complement rendering of number mod 2^n; register and TOY getters proved to pass the current values.",
+            "note": "Digit semantics of str(int)/format() trusted (A-BUILTIN). The memory-table clause (which words are listed) is a bounded run-time contract, labelled so in the evidence.",
+            "technique": _T},
+    "C18": {"text": "Proof: every read/write method of the real Memory class, for the two instantiations the simulator constructs, against the little-endian byte-map view, for arbitrary pre-state, address and value; unbounded histories by induction on the view.",
+            "note": "fixedint model trusted; dict semantics (A-BUILTIN).",
+            "technique": _T},
+    "C19": {"text": "Encoding/decoding proved for every integer word and all 13 instruction classes (loop-free, full domain). The assembler half is decided by pyparsing and is checked as a bounded run-time contract.",
+            "note": "Grammar-driven placement of code/data/labels is BOUNDED (enumerated programs), never counted as proved.",
+            "technique": _T + "; bounded run-time contract for the assembler"},
+    "C20": {"text": "Proof by heap equality: step() vs first+second vs single_step sequences from any boundary state leave identical heaps (state, counters, markers, visualisation values); out-of-order calls raise StepSequenceError with the heap unchanged; all are no-ops when done.",
+            "note": "Same assumptions as C06. load_program mid-instruction is outside the property's quantifier.",
+            "technique": _T},
 }
